@@ -93,10 +93,15 @@ CHECKS['C02'] = dict(
    text='PARTIAL and BOUNDED (level "other"): the shared call glue as instantiated by the Rust backend for one probe world, synchronous functions. 16 parameters are passed flat and 17 through one pointer to a record with field i at its canonical offset, as import and as export; a scalar result is returned directly and a two-field result through a return pointer / return area at canonical offsets; exactly one core call (import) or one user call (export) is made; the caller-allocated parameter record of an export is freed exactly once with its own size and alignment; the six generated core declarations have exactly the canonical core signatures.',
    note='BOUNDED/PARTIAL: one backend (Rust), one probe world, u32 parameters; async ABI variants and the other backends are not covered. Expected core signatures and the mock host are hand-written from CanonicalABI.md.')
 
+CHECKS['C08'] = dict(
+   engine='kani', category='other', design_ref='DESIGN.md §9.13 C08',
+   technique='contract harnesses (Kani/CBMC) on the async bindings the real Rust generator produces for a probe world, mounted inside the guest runtime crate so that they run on the real executor/Subtask code with the canonical built-ins replaced by a mock host',
+   text='PARTIAL and BOUNDED (level "other"): one probe world, scalar (u32) functions, calls that complete in their first step. An async export receives the value a sync binding would lift and reports its result through task.return exactly once, after the user\'s work finished, canonically lowered, with no cancellation signal, answering EXIT and releasing the task; an async import that returns at once makes exactly one core call with the canonically lowered parameter and lifts the result from the results area, with no handle left to drop, cancel or wait on.',
+   note='Not covered: string/list payloads (the harnesses exist but exceed CBMC\'s memory), pending calls (the runtime side is C21/C22), the cancellation signal of a dropped async export (function-local built-in, cannot be stubbed), owned handles. The generator is run with --runtime-path crate::rt and its output mounted in crates/guest-rust under a second cfg set only by this check.')
+
 NOT_APPLICABLE = {
  'C01': 'shared ABI generator is generic over Bindgen/Resolve with closures and iterator adapters (outside the Verus subset); Kani did not finish one tuple<u8,u32> through the real generator in 15 min (DESIGN §5)',
  'C03': 'same functions as C01 (deallocate / deallocate_indirect over Resolve): outside both verifiers (DESIGN §5)',
- 'C08': 'as C05 (async vs sync bindings compared under a host) (DESIGN §5)',
  'C09': 'decided by rustc + the component encoder, not by a postcondition (DESIGN §5)',
  'C10': 'as C05 for the C backend (DESIGN §5)',
  'C11': 'as C06 for the C backend (DESIGN §5)',
